@@ -192,7 +192,11 @@ func CompleteResponse(id datatransfer.TransferID, isAccepted bool, isPaused bool
 
 // FromNet can read a network stream to deserialize a GraphSyncMessage
 func FromNet(r io.Reader) (datatransfer.Message, error) {
-	tm, err := bindnodeRegistry.TypeFromReader(r, &TransferMessage1_1{}, dagcbor.Decode)
+	// Read exactly one message: the stream may carry further messages after
+	// this one (the network layer reads messages off a stream in a loop), so
+	// the decoder must not treat what follows as an error
+	decode := dagcbor.DecodeOptions{AllowLinks: true, DontParseBeyondEnd: true}.Decode
+	tm, err := bindnodeRegistry.TypeFromReader(r, &TransferMessage1_1{}, decode)
 	if err != nil {
 		return nil, err
 	}
